@@ -1008,7 +1008,7 @@ package bkl
 //@   property C09
 //@   preserves-existing
 //@   ensures (and (>= res allocTop) (not (= res 0)))
-//@   ensures (= (EvalContext.Vars res) (old (EvalContext.Vars ec)))                                         [C12]
+//@   ensures (= (EvalContext.Vars res) (old (EvalContext.Vars ec)))                                         [C12] [C08]
 
 // ------------------------------------------------------------------------------------------------- get.go, match.go (look-ups, C10)
 
@@ -1123,7 +1123,7 @@ package bkl
 //@   propagates all   [C08]
 //@   decreases (rank obj) 3
 //@   ensures (=> ((_ is VNum) obj) (or (isErr err) ((_ is VInt) res) ((_ is VFlt) res)))                     [C04]
-//@   ensures (=> ((_ is VI64) obj) (and (not (isErr err)) (= res (VInt (lv obj)))))                          [C04]
+//@   ensures (=> ((_ is VI64) obj) (and (not (isErr err)) (= res (VInt (lv obj)))))                          [C04] [C01]
 //@   ensures (=> (and (not (isErr err)) (decShape obj)) (canon res))                                         [C04]
 //@   ensures (=> (canon obj) (and (not (isErr err)) (= res obj)))                                            [C04]
 //
@@ -1155,12 +1155,13 @@ package bkl
 //@ func normalizeNumber(obj) (res, err)
 //@   propagates all   [C08]
 //@   ensures (=> (not (isErr err)) (or ((_ is VInt) res) ((_ is VFlt) res)))                                 [C04]
-//@   ensures (=> (not (isErr (numInt64E obj))) (and (not (isErr err)) (= res (VInt (numInt64 obj)))))        [C04] [C05]
+//@   ensures (=> (not (isErr (numInt64E obj))) (and (not (isErr err)) (= res (VInt (numInt64 obj)))))        [C04] [C05] [C01]
 //@   ensures (=> (isErr (numInt64E obj)) (and (= err (numFloatE obj)) (=> (not (isErr err)) (= res (VFlt (numFloat obj))))))   [C04] [C05]
 
 // ------------------------------------------------------------------------------------------------- evalcontext.go, process2.go, get.go ($env / variables, C13)
 
 //@ func envVars() (res)
+//@   ensures ((_ is VMap) res)                                                                               [C08]   -- never a nil map: every $repeat writes into a clone of it
 //@   ensures (= res (VMap (envFold emptyM osEnviron)))                                                       [C13]
 //@   loop 1
 //@     invariant ((_ is VMap) vars)
@@ -1337,6 +1338,7 @@ package bkl
 //@   property C09
 //@   preserves-existing
 //@   ensures (and (>= res allocTop) (not (= res 0)))
+//@   ensures ((_ is VMap) (EvalContext.Vars res))                                                            [C08]
 //@   ensures (= (EvalContext.Vars res) (VMap (envFold emptyM osEnviron)))                                    [C09] [C13]
 
 // ------------------------------------------------------------------------------------------------- toml.go, yaml.go, json.go (stream framing, C05)
